@@ -719,6 +719,7 @@ impl World {
             all.push(Ev::Stop);
         }
         let k = self.ch.borrow_mut().choose("step", all.len());
+        self.log.choice_pos.set(self.ch.borrow().points.len() as u32);
         let ev = all[k].clone();
         if ev == Ev::Stop {
             return false;
@@ -739,6 +740,7 @@ impl World {
             return;
         }
         let k = self.ch.borrow_mut().choose("park", 2);
+        self.log.choice_pos.set(self.ch.borrow().points.len() as u32);
         if k == 0 {
             return;
         }
@@ -815,6 +817,7 @@ pub struct Exec {
     pub steps: u32,
     pub state_hashes: Vec<u64>,
     pub err: Option<String>,
+    pub call_pos: Vec<(Op, u32)>,
 }
 
 pub fn execute(cfg: &CCfg, prefix: &[u16], suppress_stray: Option<u32>) -> Exec {
@@ -910,6 +913,7 @@ pub fn execute(cfg: &CCfg, prefix: &[u16], suppress_stray: Option<u32>) -> Exec 
             steps: w.log.steps.get(),
             state_hashes: w.state_hashes.borrow().clone(),
             err,
+            call_pos: w.core.borrow().call_pos.clone(),
         };
         drop(ch);
         ex
